@@ -627,31 +627,58 @@ def _multi(rep, ex: Explorer, stats):
 
 
 def _manager_rows(rep, ex: Explorer, stats):
-    """InferenceManager.inference row loop: rows are looked up by the submitted query's key."""
+    """InferenceManager.inference row loop: one row per submitted query, in submission order, every cell of the row
+    read from the result entry of that query's own key."""
     prog = ex.prog
     qual = "inference.inference_manager.InferenceManager.inference"
     site = fn_label(prog, qual)
-    fi = prog.function(qual)
-    # structural: the row loop iterates the submitted mapping and subscripts the results with a value derived from
-    # the loop element; KEY provenance: str(query) (text) vs key
+    QF = ("members", ("keys", "Q"))
+
+    def make_instance(I, fi, args, kwargs, node):
+        I.log("manager.instance", node)
+        return ElemV(("opinstance",), "opinstance")
+
+    def h_pre(I, v, args, kwargs, node):
+        I.log("manager.preprocess", node, args=tuple(args))
+        return Const(None)
+
+    def h_inf(I, v, args, kwargs, node):
+        I.log("manager.inference", node, args=tuple(args))
+        b = I.fresh_var("r")
+        row = TupleV((ElemV(b, "key"), Sym(("answer", b), "bool"), Sym(("timedout", b), "bool"), Sym(("time", b), "float")))
+        return I.alloc(HDict(each=[("each", b, QF, PTRUE, ElemV(b, "key"), row)]))
+
+    def setup(I):
+        bb = make_belief_base(I)
+        es = make_epistemic_state(I, bb, "system-z")
+        s = I.alloc(HObj("inference.inference_manager.InferenceManager", {"epistemic_state": es}))
+        qs = I.alloc(HObj("inference.queries.Queries", {"conditionals": _queries(I), "name": Sym(("qname",), "str"), "signature": Sym("qsig")}))
+        return [s, qs], {}
+
+    summ = {"inference.inference_manager.create_inference_instance": make_instance}
+    hooks = {("opinstance", "preprocess_belief_base"): h_pre, ("opinstance", "inference"): h_inf}
+    paths = ex.run(qual, setup, summaries=summ, key="manager", hooks=hooks)
     n = 0
-    for loop in ast.walk(fi.node):
-        if not isinstance(loop, ast.For):
+    for p in paths:
+        if p.outcome[0] != "return":
             continue
-        subs = [s for s in ast.walk(loop) if isinstance(s, ast.Subscript) and isinstance(s.value, ast.Name) and s.value.id == "results"]
-        if not subs:
-            continue
-        n += 1
-        it = ast.unparse(loop.iter)
-        keyed = ".items()" in it or ".keys()" in it
-        text_key = False
-        for st in loop.body:
-            if isinstance(st, ast.Assign) and isinstance(st.value, ast.Call) and isinstance(st.value.func, ast.Name) and st.value.func.id == "str":
-                text_key = True
-        rep.check(keyed and not text_key, "ROWS.key", f"{site}:{loop.lineno}", "row builder key", "report rows are looked up by the submitted query key",
-                  extracted=f"iterates {it}; lookup by {'text' if text_key else 'key'}", required="lookup by query key", function=site)
-    rep.floor("manager row loops", n, 1)
-    stats["manager_loops"] = n
+        evs = [(ev, Q) for ev, Q in iter_events(p.events)]
+        pre = [i for i, (ev, Q) in enumerate(evs) if ev.kind == "manager.preprocess"]
+        inf = [i for i, (ev, Q) in enumerate(evs) if ev.kind == "manager.inference"]
+        rep.check(bool(pre) and bool(inf) and min(pre) < min(inf), "REFUSE", site, "preprocess before inference", "the manager preprocesses before it evaluates queries on every path",
+                  extracted=f"preprocess calls {len(pre)}, inference calls {len(inf)}", required="preprocess first", function=site)
+        for ev, Q in evs:
+            if ev.kind in ("dict.get.unknown", "dict.get.generic") and Q:
+                loop_ev, case = Q[-1]
+                if loop_ev.fam != QF:
+                    continue
+                n += 1
+                key = ev.key
+                ok = ev.kind == "dict.get.generic" and isinstance(key, ElemV) and key.var == loop_ev.evar and key.role == "key"
+                rep.check(ok, "ROWS.key", f"{site}:{ev.node.lineno}", "row builder key", "every cell of a report row is read from the result entry of that query's own key",
+                          extracted=repr(key), required="the key of the query the row is built for", function=site)
+    rep.floor("result lookups in the manager's row loop", n, 4)
+    stats["manager_lookups"] = n
 
 
 # ----------------------------------------------------------------------------------------------
@@ -743,3 +770,110 @@ def noninterference(rep, ex: Explorer, site, paths):
                 bad = ("answer", _desc(p.outcome[1]))
     rep.check(bad is None, "NONINTERF", site, "presentation attributes", "no decision and no answer depends on the text, name or declared signature of the input",
               extracted=f"{bad[0]} depends on {F.show_desc(bad[1])[:160]}" if bad else f"{n} decisions free of presentation attributes", required="independent", function=site)
+
+
+# ----------------------------------------------------------------------------------------------
+def _self_methods_reachable(prog, cls, start):
+    """Methods of ``cls`` (through its MRO) reachable from ``start`` through self.<m>(...) calls."""
+    seen, todo = set(), [start]
+    out = []
+    while todo:
+        m = todo.pop()
+        if m in seen:
+            continue
+        seen.add(m)
+        fi = prog.lookup_method(cls, m)
+        if fi is None:
+            continue
+        out.append(fi)
+        for n in ast.walk(fi.node):
+            if isinstance(n, ast.Call) and isinstance(n.func, ast.Attribute) and isinstance(n.func.value, ast.Name) and n.func.value.id == "self":
+                todo.append(n.func.attr)
+    return out
+
+
+def state_lifetime(rep, ex: Explorer):
+    """STATE.lifetime: the manager builds a new operator object for every call and skips preprocessing once it is
+    done, so whatever preprocessing computes for later queries must live in the epistemic state: an attribute of the
+    operator that is written only on preprocessing paths must not be read on inference paths."""
+    prog = ex.prog
+    n = 0
+    for cls in operator_classes(prog):
+        ci = prog.classes[cls]
+        pre = _self_methods_reachable(prog, cls, "_preprocess_belief_base")
+        inf = _self_methods_reachable(prog, cls, "_inference")
+        init = _self_methods_reachable(prog, cls, "__init__")
+
+        def stores(fis):
+            out = {}
+            for fi in fis:
+                for nd in ast.walk(fi.node):
+                    if isinstance(nd, ast.Attribute) and isinstance(nd.value, ast.Name) and nd.value.id == "self" and isinstance(nd.ctx, ast.Store):
+                        out.setdefault(nd.attr, (fi, nd))
+            return out
+
+        def loads(fis):
+            out = {}
+            for fi in fis:
+                callees = {id(c.func) for c in ast.walk(fi.node) if isinstance(c, ast.Call)}
+                for nd in ast.walk(fi.node):
+                    if isinstance(nd, ast.Attribute) and isinstance(nd.value, ast.Name) and nd.value.id == "self" and isinstance(nd.ctx, ast.Load) and id(nd) not in callees:
+                        out.setdefault(nd.attr, (fi, nd))
+            return out
+
+        pre_st, inf_ld, init_st, inf_st = stores(pre), loads(inf), stores(init), stores(inf)
+        label = f"{ci.module.replace('.', '/')}.py:{cls.rsplit('.', 1)[1]}"
+        bad = [a for a in inf_ld if a in pre_st and a not in init_st and a not in inf_st and a != "epistemic_state"]
+        n += 1
+        for a in bad:
+            fi, nd = inf_ld[a]
+            rep.violation("STATE.lifetime", f"{label}.{fi.name}:{nd.lineno}", f"attribute {a}", "an attribute written only by preprocessing is read while answering a query: a later call on the same manager gets a fresh operator object without it",
+                          extracted=f"self.{a} written in {pre_st[a][0].name}, read in {fi.name}", required="kept in the epistemic state", function=f"{label}._inference")
+        if not bad:
+            rep.ok("STATE.lifetime", label, "attributes", "nothing that preprocessing leaves on the operator object is read while answering queries", extracted=f"preprocessing writes {sorted(pre_st)}, inference reads {sorted(a for a in inf_ld if a != 'epistemic_state')}")
+    rep.floor("operator classes audited for state lifetime", n, 7)
+
+
+MUTATING = ("dict.set", "list.append", "list.extend", "list.insert", "list.pop", "list.remove", "list.clear", "list.sort", "list.setitem",
+            "dict.update", "dict.pop", "del.item", "elem.mutate")
+PREPROC_SLOTS = ("partition", "nf_cnf_dict", "f_cnf_dict", "v_cnf_dict", "vMin", "fMin", "belief_base", "base_csp")
+
+
+def cache_readonly(rep, ex: Explorer, site, paths, allowed_state_keys=()):
+    """CACHE.readonly: what preprocessing stored for all later queries is never modified in place while a query is
+    answered (only the declared query slots of the state and the id pool change)."""
+    n = 0
+    bad = []
+    for p in paths:
+        slot_oids = {}
+        state_oid = None
+        for oid, o in p.state.heap.items():
+            if hasattr(o, "entries") and "belief_base" in getattr(o, "entries", {}) and "smt_solver" in o.entries:
+                state_oid = oid
+                for nm in PREPROC_SLOTS:
+                    r = o.entries.get(nm)
+                    if isinstance(r, Ref):
+                        slot_oids[r.oid] = nm
+                        inner = p.state.heap.get(r.oid)
+                        if isinstance(inner, HObj) and isinstance(inner.attrs.get("conditionals"), Ref):
+                            slot_oids[inner.attrs["conditionals"].oid] = nm + ".conditionals"
+        for ev, Q in iter_events(p.events):
+            if ev.kind not in MUTATING:
+                continue
+            n += 1
+            tgt = ev.data.get("obj")
+            if isinstance(tgt, Ref):
+                if tgt.oid in slot_oids:
+                    bad.append((ev, f"{slot_oids[tgt.oid]} modified in place ({ev.kind})"))
+                elif tgt.oid == state_oid and ev.kind == "dict.set" and isinstance(ev.key, Const):
+                    k = ev.key.value
+                    if k in PREPROC_SLOTS:
+                        bad.append((ev, f"state slot {k} replaced while answering a query"))
+            elif isinstance(tgt, ElemV) and ev.kind == "elem.mutate":
+                if not (isinstance(tgt.var, tuple) and tgt.var[:1] == ("copy",)):
+                    bad.append((ev, f"cached {tgt.role} modified in place ({ev.data.get('method')})"))
+    for ev, why in bad:
+        rep.violation("CACHE.readonly", f"{site}:{getattr(ev.node, 'lineno', '?')}", "in-place modification", "preprocessing results are read-only while queries are answered",
+                      extracted=why, required="copy before modifying", function=site)
+    if not bad:
+        rep.ok("CACHE.readonly", site, "in-place modification", "no preprocessing slot is modified while a query is answered", extracted=f"{n} mutating effects, none on a preprocessing slot")
